@@ -76,9 +76,21 @@ def gen_shapes(rng, nmax=3):
     return decls
 
 
-def gen_grid(rng, N, classes=("Uniform", "Geometric", "Function")):
+def gen_grid(rng, N, classes=("Uniform", "Geometric", "Function"), opts=None):
+    opts = opts or {}
     cls = rng.choice(classes)
     g = {"class": cls}
+    if rng.random() < opts.get("p_localize", 0.0):
+        if cls in ("Uniform", "Geometric"):
+            g["localize_T"] = rng.random() < 0.6
+        g["localize_t0"] = rng.random() < 0.5 or not g.get("localize_T", False)
+    if rng.random() < opts.get("p_minmax", 0.0):
+        if rng.random() < 0.7:
+            g["min"] = jq(rng.choice([Fraction(1, 8), Fraction(1, 4), Fraction(1, 16)]))
+        if rng.random() < 0.7:
+            g["max"] = jq(rng.choice([1, 2, 4, Fraction(3, 2)]))
+    if cls == "Density":
+        g["dens"] = [jq(rng.choice([1, 2, Fraction(1, 2)])), jq(rng.choice([1, 2, 3]))]
     if cls == "Geometric":
         g["growth"] = jq(rng.choice([Fraction(3, 2), 2, 3, Fraction(5, 4), 1]))
         g["local"] = rng.random() < 0.5
@@ -110,7 +122,7 @@ def gen_base(rng, opts):
     discrete = intg == "next"
     case["discrete"] = discrete
     meth = {"kind": kind, "N": N, "M": M, "intg": "rk" if discrete else intg,
-            "grid": gen_grid(rng, N, opts.get("grids", ("Uniform", "Geometric", "Function")))}
+            "grid": gen_grid(rng, N, opts.get("grids", ("Uniform", "Geometric", "Function")), opts)}
     case["method"] = meth
     # horizon
     case["t0"] = {"fixed": jq(dyadic(rng, -1, 2, 1))}
@@ -211,6 +223,9 @@ def gen_point(rng, case):
                 acc += L
                 tl.append(jq(acc))
             pt["t0loc"] = tl
+            if g.get("localize_T") or g.get("class") == "Free":
+                lens2 = [Fraction(rng.randint(2, 12), 8) for _ in range(N)]
+                pt["Tloc"] = [jq(L) for L in (lens2 if g.get("class") == "Free" else lens2[1:])]
         else:
             pt["Tloc"] = [jq(L) for L in (lens if g.get("class") == "Free" else lens[1:])]
     return pt
